@@ -232,6 +232,12 @@ func init() {
 		return true
 	}
 	models["regexp.Compile"] = func(e *Engine, st *State, x *ssa.Call, args []Value) bool {
+		if _, ok := literalPattern(args[0].(*StrV)); ok { // letters and digits only: always compiles
+			e.nextObj++
+			o := e.newObj(st, nil, &RegexpV{Pat: args[0].(*StrV), ID: e.nextObj})
+			setRes(st, x, TupleV{&PtrV{Obj: o}, nilErr()})
+			return true
+		}
 		st.abstract = "regexp.Compile is modelled as succeeding or failing arbitrarily"
 		okb := e.newNondet(st, "bool", BoolSort)
 		e.nextObj++
@@ -244,6 +250,21 @@ func init() {
 		}
 		return e.forkAlts(st, xv, []alt{{okb, good}, {e.ts.Not(okb), bad}})
 	}
+	// vpRegexMatches(pattern, text): the same uninterpreted predicate MatchString is modelled by
+	harnessModels["vpRegexMatches"] = func(e *Engine, st *State, x *ssa.Call, args []Value) bool {
+		if lit, ok := literalPattern(args[0].(*StrV)); ok {
+			setRes(st, x, e.strContains(args[1].(*StrV), lit))
+			return true
+		}
+		k := fmt.Sprintf("re:%s:%s", strSig(args[0].(*StrV)), strSig(args[1].(*StrV)))
+		v, ok := e.reMemo[k]
+		if !ok {
+			v = e.ts.Var("rematch", BoolSort)
+			e.reMemo[k] = v
+		}
+		setRes(st, x, v)
+		return true
+	}
 	models["(*regexp.Regexp).MatchString"] = func(e *Engine, st *State, x *ssa.Call, args []Value) bool {
 		p := args[0].(*PtrV)
 		if p.Obj == nil {
@@ -251,6 +272,10 @@ func init() {
 			return false
 		}
 		r := st.heap[p.Obj.ID].(*RegexpV)
+		if lit, ok := literalPattern(r.Pat); ok { // a pattern of letters and digits only matches iff the text contains it
+			setRes(st, x, e.strContains(args[1].(*StrV), lit))
+			return true
+		}
 		k := fmt.Sprintf("re:%s:%s", strSig(r.Pat), strSig(args[1].(*StrV)))
 		v, ok := e.reMemo[k]
 		if !ok {
@@ -497,4 +522,20 @@ func (e *Engine) bloomEstimate(n, p *Term) (*Term, *Term) {
 		e.crcMemo[kk] = k
 	}
 	return m, k
+}
+
+
+// literalPattern: a concrete, non-empty regexp source made of ASCII letters and digits only.
+func literalPattern(p *StrV) (*StrV, bool) {
+	src, ok := strConcrete(p)
+	if !ok || src == "" {
+		return nil, false
+	}
+	for i := 0; i < len(src); i++ {
+		c := src[i]
+		if !(c >= 'a' && c <= 'z' || c >= 'A' && c <= 'Z' || c >= '0' && c <= '9') {
+			return nil, false
+		}
+	}
+	return p, true
 }
